@@ -172,27 +172,76 @@ Proof.
     apply existsb_exists. exists (last_non_nil st order). split; [exact I0 | apply goerr_eqb_eq; reflexivity].
 Qed.
 
-(* ---- the judgement of Check.v on histories of one AtomicError is the model's ---- *)
-(* every history the model (today's Set) reproduces satisfies the contract [ae_prop] *)
-Lemma ae_agrees_prop_l : forall ops st, ae_agrees st ops = true -> ae_prop st ops = true.
+(* ---- the judgement of Check.v on histories of one AtomicError follows from the model ---- *)
+Lemma non_nil_dyns : forall vs, non_nil_of vs = map Some (dyns vs).
 Proof.
-  induction ops as [|op tl IH]; intros st A; [reflexivity|].
-  destruct op as [v p | o | vs p o]; simpl in A |- *.
+  induction vs as [|[d|] tl IH]; simpl; [reflexivity | | exact IH].
+  unfold non_nil_of in *. simpl. rewrite IH. reflexivity.
+Qed.
+
+Definition inv_ap (st cur : av) (l : list dyn) : Prop :=
+  cur = st /\ (st = None -> l = []) /\ (forall d, st = Some d -> In d l).
+
+Lemma load_ok_inv : forall st cur l, inv_ap st cur l -> load_ok l st = true.
+Proof.
+  intros st cur l (_ & N & S). destruct st as [d|].
+  - pose proof (S d eq_refl) as I. unfold load_ok. destruct l as [|x r]; [destruct I|].
+    apply existsb_exists. exists d. split; [exact I | apply goerr_eqb_eq; reflexivity].
+  - rewrite (N eq_refl). reflexivity.
+Qed.
+
+(* every history the model (today's Set, last Store wins) reproduces satisfies the contract *)
+Lemma ae_agrees_prop_inv : forall ops st cur l,
+  inv_ap st cur l -> ae_agrees st ops = true -> ae_prop cur l ops = true.
+Proof.
+  induction ops as [|op tl IH]; intros st cur l I A; [reflexivity|].
+  pose proof I as (C & N & S). subst cur.
+  destruct op as [v p | o | vs p o]; cbn [ae_agrees ae_prop] in A |- *.
   - destruct v as [d|].
     + destruct (same_type st (Some d)) eqn:T.
       * destruct (set_non_nil_interface_is_loaded_l st (Some d)) as (E & _); [discriminate | exact T |].
         rewrite E in A. apply andb_true_iff in A. destruct A as (A1 & A2).
-        destruct p; simpl in A1; [discriminate|]. simpl. apply IH. exact A2.
+        destruct p; simpl in A1; [discriminate|]. simpl. apply (IH (Some d)); [|exact A2].
+        split; [reflexivity | split; [discriminate | intros d' X; inversion X; left; reflexivity]].
       * destruct st as [d0|]; [|discriminate T]. simpl in T.
         rewrite (set_other_type_panics d0 d T) in A. apply andb_true_iff in A. destruct A as (A1 & A2).
-        destruct p; simpl in A1; [|discriminate]. apply IH. exact A2.
+        destruct p; simpl in A1; [|discriminate]. apply (IH (Some d0)); [exact I | exact A2].
     + rewrite set_nil_is_ignored_l in A. apply andb_true_iff in A. destruct A as (A1 & A2).
-      destruct p; simpl in A1; [discriminate|]. simpl. apply IH. exact A2.
+      destruct p; simpl in A1; [discriminate|]. simpl. apply (IH st); [exact I | exact A2].
   - apply andb_true_iff in A. destruct A as (A1 & A2). unfold ae_load in A1.
-    rewrite goerr_eqb_eq in A1. subst o. rewrite (proj2 (goerr_eqb_eq st st) eq_refl). simpl. apply IH. exact A2.
+    rewrite goerr_eqb_eq in A1. subst o. rewrite (load_ok_inv st st l I). simpl. apply (IH st); [exact I | exact A2].
   - destruct (consistent st vs).
-    + apply andb_true_iff in A. destruct A as (A1 & A2). rewrite A1. simpl. apply IH. exact A2.
-    + apply IH. exact A.
+    + apply andb_true_iff in A. destruct A as (A0 & A2). apply andb_true_iff in A0. destruct A0 as (A1 & A3).
+      rewrite A1. simpl.
+      assert (inv_ap o o (dyns vs ++ l)) as I'.
+      { unfold conc_allowed in A3. rewrite non_nil_dyns in A3.
+        destruct (dyns vs) as [|x r] eqn:D; simpl in A3.
+        - apply goerr_eqb_eq in A3. subst o. simpl. exact I.
+        - apply orb_true_iff in A3. split; [reflexivity|].
+          assert (exists d, o = Some d /\ In d (x :: r)) as (d & -> & X).
+          { destruct A3 as [A3 | A3].
+            - apply goerr_eqb_eq in A3. exists x. split; [exact A3 | left; reflexivity].
+            - apply existsb_exists in A3. destruct A3 as (w & W1 & W2). apply in_map_iff in W1.
+              destruct W1 as (d & <- & W1). apply goerr_eqb_eq in W2. exists d. split; [exact W2 | right; exact W1]. }
+          split; [discriminate|]. intros d' Y. inversion Y; subst d'. apply in_or_app. left. exact X. }
+      rewrite (load_ok_inv o o _ I'). simpl. apply (IH o); [exact I' | exact A2].
+    + apply (IH o); [|exact A].
+      split; [reflexivity|]. destruct o as [d|]; (split; [try discriminate; try reflexivity|]); intros d' Y.
+      * inversion Y. left; reflexivity.
+      * discriminate Y.
+Qed.
+
+Lemma ae_agrees_prop_l : forall ops, ae_agrees None ops = true -> ae_prop None [] ops = true.
+Proof.
+  intros ops. apply ae_agrees_prop_inv. split; [reflexivity | split; [reflexivity | discriminate]].
+Qed.
+
+(* the contract is not vacuous: it rejects the histories of seeded change C10-10 and of a Set that
+   stores nothing, and pins the value after exactly one Set *)
+Lemma ae_prop_single_set : forall d o,
+  ae_prop None [] [ASet (Some d) false; ALoad o] = true -> o = Some d.
+Proof.
+  intros d o H. simpl in H. rewrite orb_false_r, andb_true_r in H. apply goerr_eqb_eq in H. exact H.
 Qed.
 
 (* and a sequential history made of what the model computes is accepted: the judgement is not
